@@ -58,6 +58,23 @@ CHECKS = {
                      'decoded by the base type, occurrence restriction has the specified direction and is consulted, the post-build '
                      'content-model and attribute restriction checks are present with exact path conditions and run before the maps are '
                      'marked built. Language inclusion of content models and wildcard inclusion are not decided.', note=NOTE),
+    'C17': dict(ref='DESIGN.md §2 C17', technique='CFG must-pass-through (paired map updates), dominance, alias-vs-copy recognition, per-loop stack invariants',
+                text='Partial: the prefix->URI and URI->prefix maps of NamespaceMapper move together on every path, scope snapshots are by '
+                     'value and taken before the merge, the loaders\' namespace stack discipline holds, a copied context gets a private '
+                     'converter. Resolution of every decoded key for every nesting is not decided.', note=NOTE),
+    'C18': dict(ref='DESIGN.md §2 C18', technique='lock-discipline analysis: lexical lock regions, dominance, CFG must-pass-through incl. implicit exception edges',
+                text='Partial: double-checked build lock shape with publication last, cache table writes under the cache lock, non-blocking '
+                     'lazy lock released on every exit, fresh locks after pickle/copy. Equality of results under all interleavings is not decided.',
+                note=NOTE),
+    'C19': dict(ref='DESIGN.md §2 C19', technique='typestate (fresh/stale context element) propagated over the CFG, must-pass-through',
+                text='Partial: every error gets an element (defaulted from the element under validation before it is raised/collected) and no '
+                     'report reachable after a child was processed relies on the stale context element. That the reported path selects '
+                     'exactly the damaged node for every fault is not decided.', note=NOTE),
+    'C20': dict(ref='DESIGN.md §2 C20', technique='transitive control dependence with taint (max_depth), reaching definitions (schema_path provenance)',
+                text='Partial: no verdict-producing statement of the element/group decoders is control dependent on max_depth (one known '
+                     'finding), only the descent is cut; the path-driven drivers select the declaration through get_element with the '
+                     'defaulted schema path and report missing declarations. Correspondence of schema.find(path) with the governing '
+                     'declaration is not decided.', note=NOTE),
 }
 NOT_APPLICABLE = {
     'C06': 'equivalence of lazy and eager traversals quantifies over runtime chunkings of runtime trees; no structural necessary '
